@@ -1,5 +1,5 @@
 \* design-only: a 3-bit state counter (Mod = 8) makes the wrap-around of the generated uint8_t counter reachable with 4 steps
-CONSTANTS MaxLen = 4  K = 2  Mod = 8  Apis = {"cppw", "cppr"}
+CONSTANTS MaxLen = 4  K = 2  Mod = 8  Apis = {"cppw", "cppr"}  Ctx = 1
 INIT Init
 NEXT Next
 INVARIANTS Refines
